@@ -3,7 +3,7 @@ import ast
 import struct
 
 from .. import bits as B_
-from ..astutil import dotted, method_call
+from ..astutil import aug_form, dotted, effective, method_call
 from ..cfg import canon_test, cfg_of, fact_key, norm, walk_own
 from ..consteval import UNKNOWN, Scope, fold, fold_in
 from ..mutate import B, M
@@ -24,9 +24,9 @@ EXPLANATION = (
     'disjoint; log type table name/format/size columns agree and equal the firmware codes; R7 both element constructors skip one '
     'metadata byte and take group then name from the NUL separated remainder; R8 Toc stores under [group][name] and the three '
     'look-ups read the same path; R9 completion is signalled only from the cache-hit, last-index and empty-table branches, and '
-    'the extended-type pass hands the completion on. Reply orders as such are not enumerated: R1 is the structural guard.')
+    'the extended-type pass hands the completion on. R11 the persistence marker: an extended-type answer is accepted only as MISC_GET_EXTENDED_TYPE reply for the id just asked, once, and marks the element with that id (shared with C04.R10). Reply orders as such are not enumerated: R1 and R11 are the structural guards.')
 ASSUMPTIONS = ['firmware log.h type codes 1..8 and parameter type-byte bit semantics are as tabulated in this check']
-FLOORS = {'R10': 3, 'R1': 4, 'R2': 8, 'R3': 20, 'R4': 2, 'R5': 4, 'R6': 20, 'R7': 6, 'R8': 5, 'R9': 4}
+FLOORS = {'R11': 14, 'R10': 3, 'R1': 4, 'R2': 8, 'R3': 20, 'R4': 2, 'R5': 4, 'R6': 20, 'R7': 6, 'R8': 5, 'R9': 4}
 
 FW_LOG_TYPES = {1: ('uint8_t', 1), 2: ('uint16_t', 2), 3: ('uint32_t', 4), 4: ('int8_t', 1), 5: ('int16_t', 2), 6: ('int32_t', 4),
                 7: ('float', 4), 8: ('FP16', 2)}
@@ -166,6 +166,67 @@ def toc_lookup_rules(ctx, rule='R8'):
     ctx.inst(rule, (TOC, 'Toc'), 'toc-truthiness=presence', not (holders and dunder),
              'Toc defines %s while %s test `self.toc` for truthiness meaning "table object present": an empty table would read as absent '
              '(a duplicated reset reply restarts the download)' % (dunder, sorted(set(holders))))
+
+
+def ext_fetcher_rules(ctx, rule):
+    """Request/answer protocol of _ExtendedTypeFetcher (persistence marker of parameters): one request outstanding, an answer is accepted
+    only as MISC_GET_EXTENDED_TYPE reply for the id asked, once; shared with C03 (persistence marker of the TOC)."""
+    E = ctx.model.cls('cflib/crazyflie/param.py', '_ExtendedTypeFetcher')
+    cbk = E.method('_new_packet_cb')
+    g = cfg_of(cbk)
+    rel = g.find(lambda q: method_call(q, 'release') and norm(q.func.value) == 'self._lock')
+    ctx.need(len(rel) == 1, '_ExtendedTypeFetcher._new_packet_cb: release of the request lock not found')
+    keys = g.fact_keys_at(rel[0][0])
+    vb = [x for x in g.nodes if x.kind == 'stmt' and isinstance(x.ast, ast.Assign) and norm(x.ast.targets[0]) == 'var_id']
+    ctx.inst(rule, cbk, 'ext:id-from-bytes-1..2', len(vb) == 1 and norm(vb[0].ast.value) == "struct.unpack('<H', pk.data[1:3])[0]", 'the answered id is the <H at bytes 1..2 of the reply')
+    ctx.inst(rule, cbk, 'ext:reply-needs-channel', fact_key('pk.channel == MISC_CHANNEL') in keys, 'only MISC-channel packets can answer; guards %s' % sorted(keys))
+    ctx.inst(rule, cbk, 'ext:reply-needs-command', fact_key('pk.data[0] == MISC_GET_EXTENDED_TYPE') in keys,
+             'only a MISC_GET_EXTENDED_TYPE reply can answer (a value-updated notification with the same id must not); guards %s' % sorted(keys))
+    ctx.inst(rule, cbk, 'ext:reply-needs-requested-id', fact_key('self._req_param == var_id') in keys, 'only the id that was asked for answers the request')
+    rst = [x for x in g.nodes if x.kind == 'stmt' and isinstance(x.ast, ast.Assign) and norm(x.ast.targets[0]) == 'self._req_param' and g.dominates(x, rel[0][0])]
+    sent = [fold_in(cbk, x.ast.value) for x in rst]
+    ok = len(rst) >= 1 and all((isinstance(v, int) and v < 0) or norm(x.ast.value) == 'None' for v, x in zip(sent, rst))
+    ctx.inst(rule, cbk, 'ext:deaf-after-answer', ok, 'the requested id is replaced by a value no reply can carry before the lock is released: a second copy of the answer is ignored; resets %s' % [norm(x.ast) for x in rst])
+    dec = [x for x in g.nodes if x.kind == 'stmt' and aug_form(x.ast) and aug_form(x.ast)[0] == 'self._count']
+    ok = len(dec) == 1 and aug_form(dec[0].ast)[1] is ast.Sub and fold_in(cbk, aug_form(dec[0].ast)[2]) == 1 and fact_key('self._req_param == var_id') in g.fact_keys_at(dec[0])
+    ctx.inst(rule, cbk, 'ext:one-count-per-answer', ok, 'the remaining-answers counter drops by one per accepted answer')
+    done = g.find(lambda q: isinstance(q, ast.Call) and norm(q.func) == 'self._done_callback')
+    ok = len(done) == 1 and fact_key('self._count == 0') in g.fact_keys_at(done[0][0]) and len(dec) == 1 and g.dominates(dec[0], done[0][0])
+    ctx.inst(rule, cbk, 'ext:done-when-all-answered', ok, 'the completion callback runs when the counter reaches 0, after the decrement')
+    mp = g.find(lambda q: method_call(q, 'mark_persistent'))
+    et = [x for x in g.nodes if x.kind == 'stmt' and isinstance(x.ast, ast.Assign) and norm(x.ast.targets[0]) == 'extended_type']
+    ok = len(mp) == 1 and norm(mp[0][1].func.value) == 'self._toc.get_element_by_id(var_id)' and len(et) == 1 and norm(et[0].ast.value) == 'pk.data[3]' and \
+        fact_key('extended_type == ParamTocElement.EXTENDED_PERSISTENT') in g.fact_keys_at(mp[0][0]) and fact_key('self._req_param == var_id') in g.fact_keys_at(mp[0][0])
+    ctx.inst(rule, cbk, 'ext:marks-element-of-answered-id', ok, 'the element with the answered id is marked persistent exactly when byte 3 is EXTENDED_PERSISTENT')
+    run = E.method('run')
+    g = cfg_of(run)
+    snd = g.find(lambda q: method_call(q, 'send_packet'))
+    acq = g.find(lambda q: method_call(q, 'acquire') and norm(q.func.value) == 'self._lock')
+    get = g.find(lambda q: method_call(q, 'get') and norm(q.func.value) == 'self.request_queue')
+    ctx.need(len(snd) == 1 and len(acq) == 1 and len(get) == 1, '_ExtendedTypeFetcher.run: get/acquire/send not found')
+    st = [x for x in g.nodes if x.kind == 'stmt' and isinstance(x.ast, ast.Assign) and norm(x.ast.targets[0]) == 'self._req_param']
+    ok = not acq[0][1].args and not acq[0][1].keywords and g.dominates(get[0][0], acq[0][0]) and g.dominates(acq[0][0], snd[0][0]) and fact_key('self._cf.link') in g.fact_keys_at(snd[0][0])
+    ctx.inst(rule, run, 'ext:send-after-untimed-acquire', ok, 'each request is sent after dequeue and an untimed acquire of the request lock, with a link')
+    ok = len(st) == 1 and g.dominates(st[0], snd[0][0]) and norm(st[0].ast.value) == "struct.unpack('<H', pk.data[1:3])[0]" and norm(snd[0][1].args[0]) == 'pk' and \
+        [norm(k.value) for k in snd[0][1].keywords if k.arg == 'expected_reply'] == ['tuple(pk.data[:3])']
+    ctx.inst(rule, run, 'ext:id-published-before-send', ok, 'the id asked for is stored (bytes 1..2 of the request) before the request goes out, the expected reply is its first 3 bytes')
+    rr = g.find(lambda q: method_call(q, 'release') and norm(q.func.value) == 'self._lock')
+    ctx.inst(rule, run, 'ext:release-only-without-link', len(rr) == 1 and fact_key('self._cf.link', False) in g.fact_keys_at(rr[0][0]), 'run gives the lock back only when there is no link')
+    others = sorted(f.name for f in E.methods.values() for c in walk_own(f.node) if method_call(c, 'release') and norm(c.func.value) == 'self._lock')
+    ctx.inst(rule, E.method('_close'), 'ext:release-sites', others == ['_close', '_new_packet_cb', 'run'], 'the request lock is released by an answer, on close and on the no-link branch only; sites %s' % others)
+    rq = E.method('request_extended_types')
+    cnt = [norm(x.value) for x in walk_own(rq.node) if isinstance(x, ast.Assign) and norm(x.targets[0]) == 'self._count']
+    lp = [x for x in walk_own(rq.node) if isinstance(x, ast.For)]
+    ok = cnt == ['len(%s)' % rq.params[1]] and len(lp) == 1 and norm(lp[0].iter) == rq.params[1]
+    if ok:
+        el = norm(lp[0].target)
+        body = [norm(x) for x in effective(lp[0].body)]
+        ok = "pk.data = struct.pack('<BH', MISC_GET_EXTENDED_TYPE, %s.ident)" % el in body and 'pk.set_header(CRTPPort.PARAM, MISC_CHANNEL)' in body and body[-1] == 'self.request_queue.put(pk)' \
+            and body[0] == 'pk = CRTPPacket()'
+    ctx.inst(rule, rq, 'ext:one-request-per-element', ok, 'counter = number of elements; one fresh (MISC, GET_EXTENDED_TYPE, element.ident) request queued per element')
+    ini = E.method('__init__')
+    i0 = [fold_in(ini, x.value) for x in walk_own(ini.node) if isinstance(x, ast.Assign) and norm(x.targets[0]) == 'self._req_param']
+    ctx.inst(rule, ini, 'ext:no-request-initially', len(i0) == 1 and isinstance(i0[0], int) and i0[0] < 0, 'before the first request no id is accepted; initial %s' % i0)
 
 
 def check(ctx):
@@ -327,6 +388,7 @@ def check(ctx):
     toc_lookup_rules(ctx, 'R8')
     from .c11 import cache_name_rules
     cache_name_rules(ctx, 'R10')       # cache present: only a table stored under exactly the announced CRC may be adopted
+    ext_fetcher_rules(ctx, 'R11')      # persistence marker: the extended-type pass (shared with C04.R10)
 
     # ---- R9: completion ------------------------------------------------------------------------------------------
     fins = g.find(lambda n: method_call(n, '_toc_fetch_finished'))
@@ -381,6 +443,8 @@ def check(ctx):
 
 
 VARIANTS = [
+    M('R11', PAR, "                self._req_param = -1\n                try:", "                try:", 'fetcher stays tuned to the answered id'),
+    M('R11', PAR, "                    self._toc.get_element_by_id(var_id).mark_persistent()", "                    self._toc.get_element_by_id(self._count).mark_persistent()", 'wrong element marked'),
     M('R1', TOC, "            if ident != self.requested_index:\n                return\n", "", 'index check dropped'),
     M('R1', TOC, "        if (chan != 0):\n            return\n", "", 'channel check dropped'),
     M('R1', TOC, "                self.requested_index += 1\n", "                self.requested_index += 2\n", 'advance by two'),
